@@ -258,6 +258,7 @@ func Write(path string, offset int64, newVersion Version, opts Params, index []I
 	if err := os.Remove(path); err != nil && !errors.Is(err, os.ErrNotExist) {
 		return fmt.Errorf("write index remove stale temp: %w", err)
 	}
+	vhook.FS("remove", path, 0)
 	w, err := OpenWriter(path, offset, newVersion, opts)
 	if err != nil {
 		return err
@@ -301,6 +302,7 @@ func Write(path string, offset int64, newVersion Version, opts Params, index []I
 	if err := os.Rename(path, finalPath); err != nil {
 		return fmt.Errorf("write index rename: %w", err)
 	}
+	vhook.FS("rename", path+" "+finalPath, 0)
 	return nil
 }
 
